@@ -237,3 +237,183 @@ Definition ctx_args_ok (p : cafile * bool) : bool :=
 
 Lemma ctx_sweep : forallb ctx_args_ok all_ctx_args = true.
 Proof. vm_compute. reflexivity. Qed.
+
+(* ------------------------------------------------------------------ the scenario runner of the correspondence *)
+(* events of one party are not judged when the other party's statement is evaluated *)
+Lemma by_role_other_secure : forall r r' e, r <> r' -> by_role r e = true -> secure_b r' e = true.
+Proof.
+  intros r r' e Hn H.
+  assert (F : forall x, role_eqb x r = true -> role_eqb x r' = false).
+  { intros x Hx. apply role_eqb_eq in Hx; subst. destruct r, r'; try reflexivity; exfalso; apply Hn; reflexivity. }
+  destruct e; simpl in *; rewrite (F _ H); reflexivity.
+Qed.
+
+Lemma forallb_impl : forall (P Q : event -> bool) l,
+  (forall e, P e = true -> Q e = true) -> forallb P l = true -> forallb Q l = true.
+Proof.
+  intros P Q l H; induction l as [|x l IH]; simpl; [reflexivity|].
+  rewrite !andb_true_iff. intros [H1 H2]. split; auto.
+Qed.
+
+Lemma contact_by_role : forall r ctx h stls, forallb (by_role r) (contact r ctx h stls) = true.
+Proof. intros [] [c|] h stls; reflexivity. Qed.
+
+Lemma pstep_by_role : forall pc st i, forallb (by_role RP) (snd (pstep pc st i)) = true.
+Proof.
+  intros pc st i. destruct i as [| | | | | n e | | k stls | k stls]; cbn [pstep snd]; try reflexivity.
+  - rewrite forallb_app. unfold p_start, p_server_ctx.
+    destruct (p_srv pc); [destruct (p_tls pc)|]; reflexivity.
+  - destruct (nth_error st k); cbn [snd]; [apply contact_by_role | reflexivity].
+  - destruct (nth_error st k); cbn [snd]; [|reflexivity].
+    rewrite forallb_app, contact_by_role. destruct (handshake _ _); reflexivity.
+Qed.
+
+Lemma flat_map_contact_by_role : forall ctx stls (l : list addr),
+  forallb (by_role RC) (flat_map (fun a => contact RC ctx (a_host a) stls) l) = true.
+Proof.
+  intros ctx stls l; induction l as [|a l IH]; [reflexivity|].
+  cbn [flat_map]. rewrite forallb_app, contact_by_role, IH. reflexivity.
+Qed.
+
+Lemma c_connect_by_role : forall i h stls, forallb (by_role RC) (fst (c_connect i h stls)) = true.
+Proof.
+  intros [b|] h stls; unfold c_connect.
+  - cbn [fst]. apply contact_by_role.
+  - destruct (handshake true stls); cbn [fst]; try apply contact_by_role.
+Qed.
+
+Lemma c_start_sink_by_role : forall fixed cc i, forallb (by_role RC) (fst (c_start_sink fixed cc i)) = true.
+Proof.
+  intros fixed cc i. unfold c_start_sink. destruct (c_srv cc) as [|s].
+  - destruct (isc_true i); reflexivity.
+  - destruct (fixed && isc_true i && negb (is_https s)); reflexivity.
+Qed.
+
+Lemma cstep_by_role : forall fixed cc st i,
+  forallb (by_role RC) (snd (fst (cstep fixed cc st i))) = true.
+Proof.
+  intros fixed cc st i. destruct i as [x stls hosted | a stls | a stls | a stls |]; cbn [cstep].
+  - destruct (running st); [reflexivity|].
+    pose proof (c_connect_by_role (isc st) (a_host x) stls) as H1.
+    destruct (c_connect (isc st) (a_host x) stls) as [ev1 [i'|e]]; cbn [fst] in H1; [|exact H1].
+    pose proof (c_start_sink_by_role fixed cc i') as H3.
+    destruct (c_start_sink fixed cc i') as [ev3 [sc|e]]; cbn [fst snd] in *;
+      rewrite !forallb_app, H1, H3, flat_map_contact_by_role; reflexivity.
+  - destruct (running st); cbn [fst snd]; [apply contact_by_role | reflexivity].
+  - destruct (running st); [|reflexivity]. destruct (sink st); [|reflexivity]. cbn [fst snd].
+    rewrite forallb_app, contact_by_role. destruct (handshake _ _); reflexivity.
+  - destruct (running st); cbn [fst snd]; [apply contact_by_role | reflexivity].
+  - reflexivity.
+Qed.
+
+(* folds: a predicate that holds for the events of every step holds for the accumulated events *)
+Lemma pfold_all : forall (Q : event -> bool) pc,
+  (forall st i, forallb Q (snd (pstep pc st i)) = true) ->
+  forall l st ev, forallb Q ev = true -> forallb Q (snd (pfold pc l (st, ev))) = true.
+Proof.
+  intros Q pc H l; induction l as [|i l IH]; intros st ev Hev; [exact Hev|].
+  unfold pfold in *. cbn [fold_left]. pose proof (H st i) as Hs.
+  destruct (pstep pc st i) as [st' e]. apply IH. rewrite forallb_app, Hev. exact Hs.
+Qed.
+
+Lemma cfold_all : forall (Q : event -> bool) (I : cstate -> Prop) fixed cc,
+  (forall st i, I st -> I (fst (fst (cstep fixed cc st i))) /\
+                        forallb Q (snd (fst (cstep fixed cc st i))) = true) ->
+  forall l st ev, I st -> forallb Q ev = true ->
+    I (fst (cfold fixed cc l (st, ev))) /\ forallb Q (snd (cfold fixed cc l (st, ev))) = true.
+Proof.
+  intros Q I fixed cc H l; induction l as [|i l IH]; intros st ev Hi Hev; [split; assumption|].
+  unfold cfold in *. cbn [fold_left]. destruct (H st i Hi) as [Hi' Hs].
+  destruct (cstep fixed cc st i) as [[st' e] err]. cbn [fst snd] in *.
+  apply IH; [exact Hi'|]. rewrite forallb_app, Hev. exact Hs.
+Qed.
+
+Section Scenario.
+  Variables (Q : event -> bool) (I : cstate -> Prop) (c : scase).
+  Hypothesis HP : forall st i, forallb Q (snd (pstep (s_pc c) st i)) = true.
+  Hypothesis HC : forall st i, I st ->
+    I (fst (fst (cstep (s_fixed c) (s_cc c) st i))) /\
+    forallb Q (snd (fst (cstep (s_fixed c) (s_cc c) st i))) = true.
+
+  Lemma both_all : forall s pi ci, I (snd s) ->
+    I (snd (fst (both (s_pc c) (s_fixed c) (s_cc c) s pi ci))) /\
+    forallb Q (snd (both (s_pc c) (s_fixed c) (s_cc c) s pi ci)) = true.
+  Proof.
+    intros s pi ci Hi. unfold both. cbn [fst snd].
+    destruct (cfold_all Q I _ _ HC ci (snd s) [] Hi eq_refl) as [Hi' Hc].
+    split; [exact Hi'|]. rewrite forallb_app, Hc. apply pfold_all; [exact HP | reflexivity].
+  Qed.
+
+  Lemma sys_step_all : forall s o, I (snd s) ->
+    I (snd (fst (sys_step c s o))) /\ forallb Q (snd (sys_step c s o)) = true.
+  Proof.
+    intros s o Hi. unfold sys_step.
+    destruct (negb (running (snd s))); [split; [exact Hi | reflexivity]|].
+    destruct o; apply both_all; exact Hi.
+  Qed.
+
+  Lemma sfold_all : forall l s ev, I (snd s) -> forallb Q ev = true ->
+    I (snd (fst (sfold c l (s, ev)))) /\ forallb Q (snd (sfold c l (s, ev))) = true.
+  Proof.
+    induction l as [|o l IH]; intros s ev Hi Hev; [split; assumption|].
+    unfold sfold in *. cbn [fold_left]. destruct (sys_step_all s o Hi) as [Hi' Hs].
+    destruct (sys_step c s o) as [s' e]. cbn [fst snd] in *.
+    apply IH; [exact Hi'|]. rewrite forallb_app, Hev. exact Hs.
+  Qed.
+
+  Lemma run_events_all :
+    (forall i0, (match s_x c with XBad => None | _ => c_ctor (c_mode (s_cc c)) end) = Some i0 -> I (c_init i0)) ->
+    forallb Q (snd (run_events c)) = true.
+  Proof.
+    intros Hinit. unfold run_events.
+    pose proof (pfold_all Q _ HP [PStart; PPublish] [] [] eq_refl) as H0.
+    destruct (match s_x c with XBad => None | _ => c_ctor (c_mode (s_cc c)) end) as [i0|]; [|exact H0].
+    specialize (Hinit i0 eq_refl).
+    destruct (HC (c_init i0) (CStart (x_given c) (p_listen_tls (s_pc c)) (repeat (p_base (s_pc c)) n_hosted)) Hinit)
+      as [Hi1 H1].
+    destruct (cstep (s_fixed c) (s_cc c) (c_init i0) _) as [[cs1 ev1] err]. cbn [fst snd] in Hi1, H1.
+    set (p0 := pfold (s_pc c) [PStart; PPublish] ([], [])) in *.
+    set (p1 := if match err with Some ESsl | Some ENotConnected => false | _ => true end
+               then pfold (s_pc c) [PGetMetadata; PHostedMetadata] (fst p0, []) else (fst p0, [])).
+    assert (Hp1 : forallb Q (snd p1) = true).
+    { unfold p1. destruct (match err with Some ESsl | Some ENotConnected => false | _ => true end);
+        [apply pfold_all; [exact HP | reflexivity] | reflexivity]. }
+    set (r2 := if running cs1 then sys_step c (fst p1, cs1) OResubscribe else ((fst p1, cs1), [])).
+    assert (Hr2 : I (snd (fst r2)) /\ forallb Q (snd r2) = true).
+    { unfold r2. destruct (running cs1); [apply sys_step_all; exact Hi1 | split; [exact Hi1 | reflexivity]]. }
+    destruct Hr2 as [Hi2 H2].
+    set (r3 := sfold c (s_ops c) (fst r2, [])).
+    assert (Hr3 : I (snd (fst r3)) /\ forallb Q (snd r3) = true)
+      by (apply sfold_all; [exact Hi2 | reflexivity]).
+    destruct Hr3 as [Hi3 H3]. clearbody r3.
+    cbn [snd]. rewrite !forallb_app, H0, H1, Hp1, H2, H3. cbn [andb].
+    destruct (running (snd (fst r3)) && s_provider_first c); [apply both_all; exact Hi3|].
+    destruct (running (snd (fst r3))); [apply both_all; exact Hi3 | reflexivity].
+  Qed.
+End Scenario.
+
+(* the scenario that is compared with the real provider and consumer: its events respect C19 for a TLS provider *)
+Lemma scenario_provider_secure : forall c,
+  p_tls (s_pc c) = true -> Forall (secure RP) (snd (run_events c)).
+Proof.
+  intros c H. apply forallb_secure.
+  apply (run_events_all (secure_b RP) (fun _ => True) c).
+  - intros st i. apply pstep_secure. exact H.
+  - intros st i _. split; [exact I|].
+    apply (forallb_impl (by_role RC)); [intros e; apply by_role_other_secure; discriminate | apply cstep_by_role].
+  - intros; exact I.
+Qed.
+
+(* ... and for an enforced consumer *)
+Lemma scenario_consumer_secure : forall c,
+  c_mode (s_cc c) = CEnforced -> sink_ok (s_fixed c) (s_cc c) -> Forall (secure RC) (snd (run_events c)).
+Proof.
+  intros c Hm Hok. apply forallb_secure.
+  apply (run_events_all (secure_b RC) cinv c).
+  - intros st i.
+    apply (forallb_impl (by_role RP)); [intros e; apply by_role_other_secure; discriminate | apply pstep_by_role].
+  - intros st i Hinv.
+    destruct (cstep (s_fixed c) (s_cc c) st i) as [[st' ev] err] eqn:E. cbn [fst snd].
+    exact (cstep_secure _ _ _ _ _ _ _ Hok Hinv E).
+  - intros i0 H. rewrite Hm in H. destruct (s_x c); inversion H; apply cinv_init.
+Qed.
